@@ -49,7 +49,9 @@ def gen_long(spec):
         W = rng.randint(0, 1)
         lagA, lag2A, lagL1 = 0, 0, rng.randint(0, 1)
         lagL2 = round(rng.gauss(0.5, 1.0), 3) if spec['cont_L2'] else rng.randint(0, 1)
-        for t in range(T):
+        # left truncation: some individuals enter follow-up late, their first record does not start at time 0
+        entry = rng.choice([0, 0, 1, 2]) if spec.get('late_entry') else 0
+        for t in range(entry, entry + T):
             L1 = int(rng.random() < 0.25 + 0.35 * lagL1 + 0.1 * W)
             if spec['cont_L2']:
                 L2 = round(0.4 * lagL2 + 0.5 * L1 + 0.3 * lagA + rng.gauss(0, 1.0), 3)
@@ -185,6 +187,7 @@ def gen_spec(rng, k, quick):
     spec['float_time'] = rng.random() < 0.15
     # a continuous covariate whose lagged copy is STORED as whole numbers (lab counts, shift(fill_value=0), ...)
     spec['int_lag'] = bool(cont and spec['lags'] in ('simple', 'chain') and rng.random() < 0.6)
+    spec['late_entry'] = rng.random() < 0.3
     return spec
 
 
@@ -779,7 +782,7 @@ def evaluate(ctx, work, exprs, fails, preamble, shard, tag='c13', detail=True):
             ctx.count('low_memory:%s' % lm)
             ctx.count('records', len(res['po']))
         if detail:
-            for k in ('plan', 'covs', 'lags', 'cens', 't_max', 'spy', 'cont_L2', 'weights', 'index', 'paired', 'float_time', 'int_lag'):
+            for k in ('plan', 'covs', 'lags', 'cens', 't_max', 'spy', 'cont_L2', 'weights', 'index', 'paired', 'float_time', 'int_lag', 'late_entry'):
                 ctx.count('%s:%s' % (k, spec.get(k)))
             ctx.count('sample<=50' if spec['sample'] <= 50 else 'sample<=150' if spec['sample'] <= 150 else 'sample=300')
             ctx.sample({'config': describe(spec, jobs[0][0]), 'steps': T, 'at_risk_per_step': obs['sizes'], 'rows_out': len(jobs[0][2]['po']),
